@@ -439,6 +439,32 @@ func (g *VCGen) havocAllBut(pre *State, keep []modLoc) *State {
 	return post
 }
 
+// libObjHeap: the model heap holding the state of a private library iterator/builder created by call
+func (g *VCGen) libObjHeap(call *ssa.Call) (string, bool) {
+	pt, ok := call.Type().(*types.Pointer)
+	if !ok {
+		return "", false
+	}
+	n, ok := pt.Elem().(*types.Named)
+	if !ok {
+		return "", false
+	}
+	ta := n.TypeArgs()
+	switch n.Obj().Name() {
+	case "MapIterator":
+		h, _ := g.mapIterHeap(g.imap(ta.At(0), ta.At(1)))
+		return h, true
+	case "ListIterator":
+		h, _ := g.listIterHeap(g.ilist(ta.At(0)))
+		return h, true
+	case "MapBuilder":
+		return g.mapBuilderHeap(g.imap(ta.At(0), ta.At(1))), true
+	case "ListBuilder":
+		return g.listBuilderHeap(g.ilist(ta.At(0))), true
+	}
+	return "", false
+}
+
 // callbacksKeepLocs: "callbackskeep L": the function's own private state, which the open-world calls it makes are assumed
 // not to touch (reported as an assumption)
 func (g *VCGen) callbacksKeepLocs(pre *State) []modLoc {
